@@ -134,6 +134,7 @@ type vfWireScen struct {
 	SigintAfter int            `json:"sigintAfter"` // send SIGINT after this many probes (0: never)
 	MaxMS       int            `json:"maxMs"`
 	Listen      []int          `json:"listen"` // loopback ports with an accepting TCP server (application scans)
+	Flood       []int          `json:"flood"`  // a frame injected continuously from before the start of sx until its first probe is seen
 }
 
 func vfIsProbe(b []byte, myMAC net.HardwareAddr) bool {
@@ -219,6 +220,31 @@ func TestVfWire(t *testing.T) {
 		}
 		t0 := time.Now()
 		capt.t0 = t0
+		floodStop := make(chan struct{})
+		floodN := 0
+		var floodWG sync.WaitGroup
+		if len(sc.Flood) > 0 {
+			fb := make([]byte, len(sc.Flood))
+			for j, x := range sc.Flood {
+				fb[j] = byte(x)
+			}
+			floodWG.Add(1)
+			go func() {
+				defer floodWG.Done()
+				for {
+					select {
+					case <-floodStop:
+						return
+					default:
+					}
+					if capt.inject(fb) == nil {
+						floodN++
+					}
+					time.Sleep(30 * time.Microsecond)
+				}
+			}()
+			time.Sleep(20 * time.Millisecond)
+		}
 		must(cmd.Start())
 		exited := make(chan struct{})
 		var exitAt time.Time
@@ -262,6 +288,13 @@ func TestVfWire(t *testing.T) {
 				}
 			}
 			_ = lastT
+			if np >= 1 && len(sc.Flood) > 0 {
+				select {
+				case <-floodStop:
+				default:
+					close(floodStop)
+				}
+			}
 			if sc.SigintAfter > 0 && !sigint && np >= sc.SigintAfter {
 				sigint = true
 				sigintAt = int(time.Since(t0) / time.Microsecond)
@@ -272,6 +305,12 @@ func TestVfWire(t *testing.T) {
 				_ = cmd.Process.Kill()
 			}
 		}
+		select {
+		case <-floodStop:
+		default:
+			close(floodStop)
+		}
+		floodWG.Wait()
 		time.Sleep(30 * time.Millisecond)
 		frames := capt.snapshot()
 		drops := capt.drops()
@@ -334,7 +373,7 @@ func TestVfWire(t *testing.T) {
 		lmu.Unlock()
 		out.write([]map[string]interface{}{{"ev": "WireRun", "id": sc.ID, "name": sc.Name, "args": sc.Args, "probes": probes, "noise": noise, "drops": drops,
 			"injected": inj, "stdout": lines, "stdoutComplete": complete, "stderr": errLines, "exit": code, "exitT": int(exitAt.Sub(t0) / time.Microsecond),
-			"killed": killed, "sigintT": sigintAt, "conns": cs, "panic": strings.Contains(stderr.String(), "panic:") || strings.Contains(stderr.String(), "SIGSEGV") || strings.Contains(stderr.String(), "fatal error")}})
+			"killed": killed, "sigintT": sigintAt, "floodN": floodN, "conns": cs, "panic": strings.Contains(stderr.String(), "panic:") || strings.Contains(stderr.String(), "SIGSEGV") || strings.Contains(stderr.String(), "fatal error")}})
 	})
 }
 
